@@ -11,6 +11,7 @@ package main
 //           direction applied to the other)
 
 import (
+	"go/constant"
 	"go/token"
 	"math"
 	"strings"
@@ -233,6 +234,11 @@ func c16p6knownShutdown(at ssa.Instruction, conn ssa.Value) bool {
 // through, a load of a local cell (the result cell of a function with a deferred call, a variable a closure captures)
 // for what the path last stored into it. The walk stops when visit returns true.
 func c16p6eachReturn(from ssa.Instruction, visit func(r *ssa.Return, val func(ssa.Value) ssa.Value) bool) bool {
+	return c16p6eachReturnVia(from, nil, visit)
+}
+
+// c16p6eachReturnVia: c16p6eachReturn over the paths that only take edges (block b -> its k-th successor) take admits.
+func c16p6eachReturnVia(from ssa.Instruction, take func(b *ssa.BasicBlock, k int) bool, visit func(r *ssa.Return, val func(ssa.Value) ssa.Value) bool) bool {
 	type edge struct{ a, b *ssa.BasicBlock }
 	seen := map[edge]bool{}
 	type envT map[ssa.Value]ssa.Value // phi, local cell or load of one -> its value on this path
@@ -273,8 +279,8 @@ func c16p6eachReturn(from ssa.Instruction, visit func(r *ssa.Return, val func(ss
 				}
 			}
 		}
-		for _, s := range b.Succs {
-			if seen[edge{b, s}] {
+		for sk, s := range b.Succs {
+			if seen[edge{b, s}] || take != nil && !take(b, sk) {
 				continue
 			}
 			seen[edge{b, s}] = true
@@ -320,6 +326,54 @@ func c16p6goesOn(site ssa.Instruction) bool {
 		}
 		return true
 	})
+}
+
+// c16p6boolSignal: the close at site sits in a helper that reports what it did with a bool: every return that can follow
+// the close (and does not carry a non-nil error) gives the same constant for the helper's only bool result. k is that
+// constant, idx the index of the result.
+func c16p6boolSignal(site ssa.Instruction) (k bool, idx int, ok bool) {
+	f := site.Parent()
+	if f == nil {
+		return false, -1, false
+	}
+	idx = -1
+	res := f.Signature.Results()
+	for j := 0; j < res.Len(); j++ {
+		if typeStr(res.At(j).Type().Underlying()) == "bool" {
+			if idx >= 0 {
+				return false, -1, false
+			}
+			idx = j
+		}
+	}
+	if idx < 0 {
+		return false, -1, false
+	}
+	n, same := 0, true
+	c16p6eachReturn(site, func(r *ssa.Return, val func(ssa.Value) ssa.Value) bool {
+		for _, x := range r.Results {
+			if c16isErrT(x.Type()) && !isNilConst(val(x)) {
+				return false
+			}
+		}
+		if idx >= len(r.Results) {
+			same = false
+			return false
+		}
+		cst, isC := val(r.Results[idx]).(*ssa.Const)
+		if !isC || cst.Value == nil {
+			same = false
+			return false
+		}
+		b := constant.BoolVal(cst.Value)
+		if n > 0 && b != k {
+			same = false
+		}
+		k = b
+		n++
+		return false
+	})
+	return k, idx, same && n > 0
 }
 
 // c16p6closesOf: the closes of connection v that instruction s performs: s itself, or a close in what s runs
@@ -408,16 +462,66 @@ func runC16P6(c *Ctx) {
 			}
 			for _, v := range cands {
 				live := false
+				// a helper that closes the connection and says so with a bool (ok / admitted / kept): the paths of the
+				// caller on which the helper's verdict is the other one are not paths after a close
+				sigK, sigIdx, sigN, sigOK := false, -1, 0, true
 				for _, site := range c16p6closesOf(s, v) {
-					if site == s || c16p6goesOn(site) {
-						live = true
+					if site == s {
+						live, sigOK = true, false
+						continue
 					}
+					if !c16p6goesOn(site) {
+						continue
+					}
+					live = true
+					k, idx, ok := c16p6boolSignal(site)
+					sc := cc.StaticCallee()
+					if !ok || sc == nil || site.Parent() != unwrap(sc) || unwrap(sc) != sc || sigN > 0 && (k != sigK || idx != sigIdx) {
+						sigOK = false
+					}
+					sigK, sigIdx = k, idx
+					sigN++
 				}
 				if !live {
 					continue
 				}
+				var take func(b *ssa.BasicBlock, k int) bool
+				if call, isCall := s.(*ssa.Call); isCall && sigOK && sigN > 0 {
+					verdict := func(x ssa.Value) bool {
+						if x == ssa.Value(call) {
+							return call.Call.Signature().Results().Len() == 1
+						}
+						e, isE := x.(*ssa.Extract)
+						return isE && e.Tuple == ssa.Value(call) && e.Index == sigIdx
+					}
+					take = func(b *ssa.BasicBlock, k int) bool {
+						if len(b.Instrs) == 0 {
+							return true
+						}
+						iff, isIf := b.Instrs[len(b.Instrs)-1].(*ssa.If)
+						if !isIf {
+							return true
+						}
+						cond, neg := iff.Cond, false
+						for {
+							u, isNot := cond.(*ssa.UnOp)
+							if !isNot || u.Op != token.NOT {
+								break
+							}
+							cond, neg = u.X, !neg
+						}
+						if !verdict(cond) {
+							return true
+						}
+						// Succs[0] is taken when the condition holds, i.e. when the helper's verdict is !neg
+						if sigK == !neg {
+							return k == 0
+						}
+						return k == 1
+					}
+				}
 				var bad *ssa.Return
-				c16p6eachReturn(s, func(r *ssa.Return, val func(ssa.Value) ssa.Value) bool {
+				c16p6eachReturnVia(s, take, func(r *ssa.Return, val func(ssa.Value) ssa.Value) bool {
 					for _, res := range r.Results {
 						if c16isConnT(res.Type()) && val(res) == val(v) {
 							bad = r
@@ -451,8 +555,17 @@ func c16d1fields(c *Ctx, v ssa.Value) map[string]bool {
 	seenF := map[fkey]bool{}
 	var from func(v ssa.Value, d int)
 	from = func(v ssa.Value, d int) {
-		var via []*ssa.FieldAddr
+		var via []fkey
 		derives(v, func(x ssa.Value) bool {
+			if fv, isF := x.(*ssa.Field); isF {
+				// the configuration section (or the struct that keeps the limit) held by value: pc := cfg.Proxy; pc.GRPCMax...
+				if namedIs(fv.X.Type(), "config.Proxy") {
+					out[fieldName(fv.X.Type(), fv.Field)] = true
+				} else {
+					via = append(via, fkey{typeStr(fv.X.Type()), fv.Field})
+				}
+				return false
+			}
 			fa, ok := x.(*ssa.FieldAddr)
 			if !ok {
 				return false
@@ -460,15 +573,14 @@ func c16d1fields(c *Ctx, v ssa.Value) map[string]bool {
 			if namedIs(fa.X.Type(), "config.Proxy") {
 				out[fieldName(fa.X.Type(), fa.Field)] = true
 			} else if _, isAlloc := fa.X.(*ssa.Alloc); !isAlloc {
-				via = append(via, fa)
+				via = append(via, fkey{typeStr(deref(fa.X.Type())), fa.Field})
 			}
 			return false
 		})
 		if d >= 2 {
 			return
 		}
-		for _, fa := range via {
-			k := fkey{typeStr(deref(fa.X.Type())), fa.Field}
+		for _, k := range via {
 			if seenF[k] || !strings.HasPrefix(k.t, repoMod) || strings.HasPrefix(k.t, repoMod+"/config.") {
 				continue
 			}
@@ -494,16 +606,40 @@ func c16d1fields(c *Ctx, v ssa.Value) map[string]bool {
 	return out
 }
 
+// c16d1dialFn: g is one of gRPC's functions that make a client connection.
+func c16d1dialFn(g *ssa.Function) bool {
+	if g == nil || g.Pkg == nil || g.Pkg.Pkg.Path() != c16grpc || g.Signature.Recv() != nil {
+		return false
+	}
+	switch g.Name() {
+	case "Dial", "DialContext", "NewClient":
+		return true
+	}
+	return false
+}
+
 func runC16D1(c *Ctx) {
 	const rxDefault, txDefault = "GRPCMaxRxMsgSize", "GRPCMaxTxMsgSize"
 	// the configuration values behind the listener's two limits (W1 checks that they are the right ones)
 	rx, tx := map[string]bool{}, map[string]bool{}
-	var sends, recvs, dials []*ssa.Call
+	var sends, recvs []*ssa.Call
+	var dials []token.Pos // where backend connections are made: a call of a gRPC dial function, or its value taken (dialer seam)
 	for _, f := range c.AllFns {
 		if !isRepoFn(f) {
 			continue
 		}
 		eachInstr(f, func(i ssa.Instruction) {
+			// the dial function kept as a value (a replaceable dialer in a field, a variable, an argument) still dials
+			for _, op := range i.Operands(nil) {
+				if op == nil || *op == nil {
+					continue
+				}
+				if g, isFn := (*op).(*ssa.Function); isFn && c16d1dialFn(g) {
+					if cc := callCommon(i); cc == nil || cc.Value != g {
+						dials = append(dials, i.Pos())
+					}
+				}
+			}
 			call, ok := i.(*ssa.Call)
 			if !ok || call.Call.IsInvoke() {
 				return
@@ -526,9 +662,17 @@ func runC16D1(c *Ctx) {
 			case "MaxCallRecvMsgSize", "WithMaxMsgSize":
 				recvs = append(recvs, call)
 			case "Dial", "DialContext", "NewClient":
-				dials = append(dials, call)
+				dials = append(dials, call.Pos())
 			}
 		})
+	}
+	// ... or in a package-level variable (var dial = grpc.DialContext): the store sits in the package initialiser
+	for _, sts := range gGlobalStores {
+		for _, st := range sts {
+			if g, isFn := st.Val.(*ssa.Function); isFn && c16d1dialFn(g) && isRepoFn(st.Parent()) {
+				dials = append(dials, st.Pos())
+			}
+		}
 	}
 	if len(rx) == 0 {
 		rx[rxDefault] = true
@@ -574,6 +718,6 @@ func runC16D1(c *Ctx) {
 			nRecv++
 		}
 	}
-	c.check("C16.D1", "proxy|receive limit of backend connections comes from the configuration", dials[0].Pos(), nRecv > 0,
+	c.check("C16.D1", "proxy|receive limit of backend connections comes from the configuration", dials[0], nRecv > 0,
 		"no grpc.MaxCallRecvMsgSize fed by proxy.grpcmaxrxmsgsize (or proxy.grpcmaxtxmsgsize) is built for the backend connections: gRPC's default of 4 MB then applies to what backends send, and a reply that the operator's limits allow is refused with ResourceExhausted instead of being delivered to the caller")
 }
